@@ -245,6 +245,9 @@ def run_case(case):
                 try:
                     probs, st = M.audit_graph(low)
                 except Exception as ex:
+                    if stage == "logical":
+                        bump("query_refused_at_graph_time")  # the unoptimized query itself cannot be materialised: a refusal
+                        break
                     viol = dict(progcase.exc_info(ex), oracle="graph_materialises", stage=stage)
                     break
                 bump("graphs_audited")
